@@ -197,10 +197,163 @@ def atomicity_probe(ctx, FatFileSystem, image_before, t_before, t_after, op, inf
     return True
 
 
+def generator_window_probe(ctx, FatFileSystem):
+    """A listing generator (iterdir / glob / rglob) is consumed one item at a time; after the first item another thread
+    tries to rename a file already listed into a directory not yet visited.  The listing must be the one of the tree
+    before or after the rename (with the lock held across the yields the writer simply waits)."""
+    rng = ctx.rng
+    for ft in ('fat12', 'fat16', 'fat32'):
+        for kind, pattern in (('rglob', '*.txt'), ('glob', '**/*.txt'), ('rglob', '*')):
+            g = fatimg.Geometry(ft, 120, spc=1, bps=512, nfats=2, root_entries=64, type_string=True)
+            b = fatimg.Builder(g, rng)
+            buf = bytearray(b.img)
+            with warnings.catch_warnings():
+                warnings.simplefilter('ignore')
+                fs = FatFileSystem(memoryview(buf))
+            try:
+                (fs.root / 'a.txt').write_bytes(b'a')
+                (fs.root / 'sub').mkdir()
+                (fs.root / 'sub' / 'b.txt').write_bytes(b'b')
+                (fs.root / 'sub' / 'deeper').mkdir()
+                (fs.root / 'sub' / 'deeper' / 'c.txt').write_bytes(b'c')
+                def listing():
+                    return sorted(str(p) for p in getattr(fs.root, kind)(pattern))
+                before = listing()
+                it = getattr(fs.root, kind)(pattern)
+                got = [str(next(it))]
+                done = []
+                def writer():
+                    try:
+                        (fs.root / 'a.txt').rename(fs.root / 'sub' / 'deeper' / 'a.txt')
+                        done.append('ok')
+                    except Exception as e:      # noqa: BLE001
+                        done.append(repr(e))
+                th = threading.Thread(target=writer)
+                th.start()
+                th.join(0.3)                    # with the lock held across the yields the writer is still waiting here
+                got += [str(p) for p in it]
+                th.join(10)
+                after = listing()
+                ctx.case(('generator-window', ft, kind, pattern), True, 'generator-window')
+                if sorted(got) not in (before, after):
+                    ctx.violation('fs.atomic/listing-not-serialisable',
+                                  f'{kind}({pattern!r}) on {ft}, consumed item by item while another thread renames /a.txt to /sub/deeper/a.txt: '
+                                  f'the listing {sorted(got)} is neither the one before {before} nor the one after {after} the rename',
+                                  dict(fat_type=ft, kind=kind, pattern=pattern, listing=got, before=before, after=after, writer=done))
+                    return False
+            finally:
+                try:
+                    fs.close()
+                except Exception:
+                    pass
+    return True
+
+
+def conflicting_op(op):
+    """an operation of another thread that a check-then-act on op's target must not let slip in"""
+    k = op['op']
+    if k == 'rmdir':
+        return dict(op='write', path=op['path'] + '/slipped in.txt', data=b'x', via='bytes')
+    if k == 'unlink':
+        return dict(op='write', path=op['path'], data=b'rewritten meanwhile', via='bytes')
+    if k == 'rename':
+        return dict(op='write', path=op['target'], data=b'appeared meanwhile', via='bytes')
+    if k == 'mkdir':
+        return dict(op='mkdir', path=op['path'])
+    if k in ('write', 'touch') and op.get('via') != 'open':
+        return dict(op='unlink', path=op['path'])
+    return None
+
+
+def upgrade_probe(ctx, FatFileSystem, image_before, t_before, op, info):
+    """Re-run one operation on a copy of the volume.  If the thread asks for the write side while it holds only the read
+    side (an upgrade: the lock lets go of the read side first), a second thread with a conflicting operation is already
+    queued for the write side at that moment.  Outcomes and final tree must be those of one of the two serial orders."""
+    import nobodd.fs as F, time
+    other = conflicting_op(op)
+    if other is None:
+        return True
+    buf = bytearray(image_before)
+    st = dict(r=0, w=0, fs=None, busy=False, fired=False, other_result=None, th=None)
+    main = threading.main_thread()
+    def run_other():
+        st['other_result'] = fatops.apply_impl(st['fs'], other)
+    class Wrap:
+        def __init__(s, inner, side):
+            s.inner, s.side = inner, side
+        def acquire(s, *a, **k):
+            me = threading.current_thread() is main
+            if me and s.side == 'w' and st['busy'] and st['w'] == 0 and st['r'] > 0 and not st['fired']:
+                st['fired'] = True
+                st['th'] = threading.Thread(target=run_other)
+                st['th'].start()
+                time.sleep(0.3)             # the other thread is now waiting for the write side
+            r = s.inner.acquire(*a, **k)
+            if r and me:
+                st[s.side] += 1
+            return r
+        def release(s):
+            s.inner.release()
+            if threading.current_thread() is main:
+                st[s.side] -= 1
+        def __enter__(s):
+            s.acquire()
+            return s
+        def __exit__(s, *exc):
+            s.release()
+    Real = F.RWLock
+    class RW(Real):
+        def __init__(s):
+            super().__init__()
+            s.read, s.write = Wrap(s.read, 'r'), Wrap(s.write, 'w')
+    F.RWLock = RW
+    try:
+        with warnings.catch_warnings():
+            warnings.simplefilter('ignore')
+            fs = FatFileSystem(memoryview(buf)[GUARD:len(buf) - GUARD])
+    finally:
+        F.RWLock = Real
+    st['fs'] = fs
+    try:
+        st['busy'] = True
+        mine = fatops.apply_impl(fs, op)
+        st['busy'] = False
+        if not st['fired']:
+            return True
+        st['th'].join(20)
+        ctx.stat('upgrade-probes-fired')
+        with warnings.catch_warnings():
+            warnings.simplefilter('ignore')
+            final = sort_tree(canon_nobodd(fatspec.dump_nobodd(fs)))
+    finally:
+        st['busy'] = False
+        try:
+            fs.close()
+        except Exception:
+            pass
+    orders = []
+    for first, second in ((op, other), (other, op)):
+        t = copy.deepcopy(t_before)
+        r1 = fatops.apply_model(t, dict(first))
+        r2 = fatops.apply_model(t, dict(second))
+        res = (r1, r2) if first is op else (r2, r1)
+        orders.append((('ok' if res[0] == 'ok' else 'err', 'ok' if res[1] == 'ok' else 'err'), sort_tree(t.canon())))
+    seen = (('ok' if mine == 'ok' else 'err', 'ok' if st['other_result'] == 'ok' else 'err'), final)
+    if seen not in orders:
+        ctx.violation('fs.atomic/upgrade-window',
+                      f'{jsonable_op(op)} asks for the write side while holding only the read side; with {jsonable_op(other)} of another thread '
+                      f'queued at that moment the outcomes are {mine} / {st["other_result"]} and the final tree is that of neither serial order',
+                      dict(info, other=jsonable_op(other), outcomes=[mine, st['other_result']]))
+        return False
+    return True
+
+
 def run(ctx, build):
     R = ctx.runner('Fat')
     rng = ctx.rng
     from nobodd.fs import FatFileSystem as _FFS
+    if not generator_window_probe(ctx, _FFS):
+        return
     nhist = 30 if ctx.thorough else 8
     if ctx.widen:
         nhist *= 2
@@ -225,6 +378,12 @@ def run(ctx, build):
                     fatops.apply_model(t, op)
                     res, events = tr.run(lambda: fatops.apply_impl(fs, op))
                     mutating = True
+                    if any(e[0] == 'acq' and e[1] == 'w' and e[2] == 1 and e[3] > 0 for e in events):
+                        # the write side was taken while only the read side was held: an upgrade
+                        ctx.stat('upgrades-seen')
+                        if not upgrade_probe(ctx, _FFS, image_before, t_before, op,
+                                             dict(geometry={k: v for k, v in vars(g).items()}, history=history + [jsonable_op(op)])):
+                            return
                     if sections_with_stores(events) >= 2 or ctx.widen or ctx.thorough or i % 3 == 0:
                         ctx.stat('atomicity-probes')
                         if not atomicity_probe(ctx, _FFS, image_before, t_before, t, op,
